@@ -13,6 +13,31 @@ use std::fmt::Debug;
 // concordium_base::common::{Serial, Deserial} over std::io::Read
 // ---------------------------------------------------------------------------
 
+
+/// Crafted input for every subject of a family with unique encodings: a valid encoding whose first
+/// one to three bytes (where tags, variant numbers, bitmaps and counts live) are replaced by sparse,
+/// small or arbitrary values. Only totality, bounded allocation and uniqueness of the encoding are
+/// required of the result.
+fn damage_head(seed: u64, mut b: Vec<u8>) -> (Vec<u8>, Option<bool>) {
+    let mut rng = Rng::new(seed ^ 0x5EED_C0DE);
+    if b.is_empty() {
+        b.push(rng.next_u32() as u8);
+        return (b, None);
+    }
+    let k = rng.urange(1, 3).min(b.len());
+    let at = if rng.chance(3, 4) { 0 } else { rng.usize_below(b.len() - k + 1) };
+    for i in 0..k {
+        b[at + i] = match rng.below(5) {
+            0 => b[at + i] ^ (1 << rng.below(8)),
+            1 => rng.below(40) as u8,
+            2 => 1 << rng.below(8),
+            3 => 0xff - rng.below(4) as u8,
+            _ => rng.next_u32() as u8,
+        };
+    }
+    (b, None)
+}
+
 pub fn base_subject<T>(name: &str, gen: fn(&mut Rng) -> T) -> Subject
 where
     T: cb::Serial + cb::Deserial + PartialEq + Debug + 'static, {
@@ -50,7 +75,7 @@ where
         }),
         encode_faulty:    None,
         rejects_trailing: false,
-        crafted: None,
+        crafted: Some(Box::new(move |seed| damage_head(seed, cb::to_bytes(&gen(&mut Rng::new(seed)))))),
     }
 }
 
@@ -135,7 +160,7 @@ where
             }
         })),
         rejects_trailing: false,
-        crafted: None,
+        crafted: Some(Box::new(move |seed| damage_head(seed, cc::to_bytes(&gen(&mut Rng::new(seed)))))),
     }
 }
 
